@@ -408,7 +408,7 @@ def gen_raw(rng):
                        [("Set-Cookie", "a=\xfc"), ("Set-Cookie", "b=2"), ("vary", "Cookie")], [("Vary", "Accept"), ("Vary", "Accept"), ("Vary", "Origin")], [("Content-Type", "text/plain"), ("Set-Cookie", "a=1; Path=/"), ("Set-Cookie", "b=2; HttpOnly")],
                        [("X-Tag", ""), ("X-Tag", "b")], [("X-Tag", "a"), ("X-Tag", ""), ("X-Empty", "")],
                        [("Set-Cookie2", "old=style"), ("Set-Cookie", "a=1")], [("Set-Cookie-Policy", "x"), ("X-Set-Cookie", "y=1")]])
-    return {"app": "raw", "status": rng.choice([200, 201, 404, 418, 599, 204, 304, 205]), "headers": hdrs, "declare_length": rng.random() < 0.3,
+    return {"app": "raw", "status": rng.choice([200, 201, 404, 418, 599, 204, 304, 205, 600, 799, 999]), "headers": hdrs, "declare_length": rng.random() < 0.3,
             "chunks": [rng.choice([b"hello", b"world", b"", b"\x00\xff"]) for _ in range(n)],
             "shape": rng.choice(["list", "tuple", "generator", "closing", "plain-iterator"]), "reuse_buffer": rng.random() < 0.2, "one_event": rng.random() < 0.5, "minimal_last": rng.random() < 0.3,
             "restart": rng.random() < 0.15, "headers_as_iterator": rng.random() < 0.3}
